@@ -209,8 +209,8 @@ def _one(case, full=True, light_single=False):
                 pl = an2.plan()
                 r2 = an2.compute() if do_compute else None
             except ValueError as e:
-                if "No frequencies" in str(e) and not mask.any():
-                    continue
+                if not mask.any():
+                    continue  # an empty band is rejected with an error: what the property asks for
                 out["failures"].append(_mk(case, "band/raises", f"band=({lo!r},{hi!r}) raised ValueError: {e}; in-band bins {int(mask.sum())}"))
                 break
             except Exception as e:  # noqa: BLE001
